@@ -40,6 +40,7 @@ def stepD (base : Bool) (d : DS) (j : Json) : Except String (DS × String) := do
   | "pause" => call .pauseCall "pause"
   | "resume" => call .resumeCall "resume"
   | "stop" => call .stopCall "stop"
+  | "subscribe" => call .subscribe "subscribe"
   | "busy" => let i ← nat j "i"; let d' := { d with busy := i :: d.busy }; pure (d', showS d'.s)
   | "free" =>
     let i ← nat j "i"
